@@ -77,8 +77,10 @@ pub open spec fn parked(f: int, timer: Option<Timer>, on_end: Seq<Flag>, on_end_
 
 // I3 (C07): a parked graceful-restart ticket is covered by its armed restart timer, or is already resolved
 pub open spec fn inv_restart(timer: Option<Timer>, on_end_restart: Option<Flag>, env: &Env) -> bool {
-    on_end_restart is Some ==> (timer is Some && timer->Some_0.is_restart && timer->Some_0.done.id == on_end_restart->Some_0.id)
-        || env.raised@.contains(on_end_restart->Some_0.id)
+    (on_end_restart is Some ==> (timer is Some && timer->Some_0.is_restart && timer->Some_0.done.id == on_end_restart->Some_0.id)
+        || env.raised@.contains(on_end_restart->Some_0.id))
+    // and an armed restart timer always has its ticket parked for the process end as well
+    && (timer is Some && timer->Some_0.is_restart ==> on_end_restart is Some && timer->Some_0.done.id == on_end_restart->Some_0.id)
 }
 
 // ---- log deltas ------------------------------------------------------------------------------------
@@ -200,10 +202,13 @@ pub open spec fn c09_try_restart(ov: JobView, fv: JobView, pre: &Env, post: &Env
 }
 // ContinueTryGracefulRestart (grace period of a graceful try-restart expired): force-stop if still running, then start afresh
 pub open spec fn c09_continue(ov: JobView, fv: JobView, pre: &Env, post: &Env, command: &ArcCommand) -> bool {
-    fv.timer == ov.timer && if !(ov.cs is Running) {
+    // the pending restart request is consumed by this continuation, whatever happens next
+    fv.timer == ov.timer && fv.on_end_restart is None && if !(ov.cs is Running) {
         fv.prev == Some(ov.cs) && same_hooks(ov, fv) && same_waiters(ov, fv)
         && respawn_seq(pre, post, 0, n_of(pre, post), command, Some(ov.cs), fv.cs)
-    } else { forced_stop_failed(pre, post, ov, fv) || stopped_and_respawned(ov, fv, pre, post, command) }
+    } else {
+        forced_stop_failed(pre, post, JobView { on_end_restart: None, ..ov }, fv) || stopped_and_respawned(ov, fv, pre, post, command)
+    }
 }
 // Signal: "Sends a signal to the current program, if there is one. If there isn't, this is a no-op."
 pub open spec fn c09_signal(ov: JobView, fv: JobView, pre: &Env, post: &Env, sig: Signal) -> bool {
@@ -240,4 +245,23 @@ pub open spec fn pushed1(pre: &Env, post: &Env) -> bool { post.log@ == pre.log@.
 // the running process of `v` ended in this step: its exit status was collected
 pub open spec fn reaped_in(pre: &Env, post: &Env, v: CsV) -> bool {
     v is Running && exists|k: int| 0 <= k < n_of(pre, post) && is_wait(#[trigger] at(pre, post, k), running_cid(v), true)
+}
+
+// The running process ended by itself (select arm 1). From the docs: `to_wait` tickets resolve when the command ends; a pending
+// graceful stop is over (its ticket resolves: "no later than the earlier of the process exiting and the grace period expiring");
+// a pending graceful try-restart continues: the replacement is started, once, and its ticket resolves.
+pub open spec fn c09_child_ended(ov: JobView, fv: JobView, pre: &Env, post: &Env, command: &ArcCommand, skipped: bool) -> bool {
+    let c = running_cid(ov.cs);
+    (is_wait(at(pre, post, 0), c, false) && failed_at(pre, post, 2, ov, fv) && skipped)
+    || (is_wait(at(pre, post, 0), c, true) && same_hooks(ov, fv) && ended(ov, fv, post)
+        && fv.timer is None && fv.on_end_restart is None
+        // the grace timer's ticket (graceful stop or graceful try-restart) resolves now
+        && (ov.timer is Some ==> post.raised@.contains(ov.timer->Some_0.1))
+        && (ov.on_end_restart is Some ==> post.raised@.contains(ov.on_end_restart->Some_0))
+        && if ov.on_end_restart is None {
+            n_of(pre, post) == 1 && finished_keeping_start(ov, fv.cs) && fv.prev == ov.prev && !skipped
+        } else {
+            fv.prev is Some && finished_keeping_start(ov, fv.prev->Some_0)
+            && respawn_seq(pre, post, 1, n_of(pre, post), command, fv.prev, fv.cs)
+        })
 }
